@@ -291,23 +291,46 @@ Proof.
       * exact IH.
 Qed.
 
+(* one assignment of iniparser_load (cfc9e38): an entry (Some v) is stored, a heading (None) only claims a free slot *)
+Definition dict_put (d : dict) (k : str) (v : option str) : dict :=
+  match v with
+  | Some _ => dict_set d k v
+  | None => if dict_mem d k then d else dict_set d k None
+  end.
+
+Lemma dict_get_put_other d k v k' : k' <> k -> dict_get (dict_put d k v) k' = dict_get d k'.
+Proof.
+  intros Hne. unfold dict_put. destruct v as [x|]; [|destruct (dict_mem d k); [reflexivity|]];
+  rewrite dict_get_set, str_eqb_neq by exact Hne; reflexivity.
+Qed.
+
+Lemma dict_get_put_entry d k x : dict_get (dict_put d k (Some x)) k = Some (Some x).
+Proof. unfold dict_put. rewrite dict_get_set, str_eqb_refl. reflexivity. Qed.
+
+(* a heading leaves an existing slot alone - in particular the value of an entry of the same name *)
+Lemma dict_get_put_heading_kept d k y : dict_get d k = Some y -> dict_put d k None = d.
+Proof. intros H. unfold dict_put, dict_mem. rewrite H. reflexivity. Qed.
+
 Definition set_all (l : list (str * option str)) (d : dict) : dict :=
-  fold_left (fun d kv => dict_set d (fst kv) (snd kv)) l d.
+  fold_left (fun d kv => dict_put d (fst kv) (snd kv)) l d.
 
 Lemma dict_get_set_all_notin l : forall d K, ~ In K (map fst l) -> dict_get (set_all l d) K = dict_get d K.
 Proof.
   induction l as [|[k v] l IH]; intros d K H; [reflexivity|].
-  cbn in *. unfold set_all in *. cbn. rewrite IH by tauto. rewrite dict_get_set.
-  rewrite str_eqb_neq; [reflexivity|]. intros ->. tauto.
+  cbn in *. unfold set_all in *. cbn. rewrite IH by tauto. apply dict_get_put_other. intros ->. tauto.
 Qed.
 
-Lemma dict_get_set_all_unique l : forall d K v, NoDup (map fst l) -> In (K, v) l -> dict_get (set_all l d) K = Some v.
+(* a stored value survives every later assignment that is not an ENTRY of the same key *)
+Lemma dict_get_set_all_kept l : forall d K x,
+  (forall y, ~ In (K, Some y) l) -> dict_get d K = Some (Some x) -> dict_get (set_all l d) K = Some (Some x).
 Proof.
-  induction l as [|[k0 v0] l IH]; intros d K v Hnd Hin; [contradiction|].
-  cbn in Hnd. inversion Hnd as [|? ? Hni Hnd']; subst. unfold set_all in *. cbn.
-  destruct Hin as [Heq|Hin].
-  - inversion Heq; subst. rewrite (dict_get_set_all_notin l) by exact Hni. rewrite dict_get_set, str_eqb_refl. reflexivity.
-  - apply IH; assumption.
+  induction l as [|[k v] l IH]; intros d K x Hno Hd; [exact Hd|].
+  unfold set_all in *. cbn [fold_left fst snd]. apply IH.
+  - intros y Hy. apply (Hno y). right. exact Hy.
+  - destruct (str_eqb K k) eqn:E.
+    + apply str_eqb_eq in E. subst k. destruct v as [y|]; [exfalso; apply (Hno y); left; reflexivity|].
+      rewrite (dict_get_put_heading_kept d K (Some x)) by exact Hd. exact Hd.
+    + rewrite dict_get_put_other; [exact Hd|]. intros ->. rewrite str_eqb_refl in E. discriminate E.
 Qed.
 
 (* ------------------------------------------------------------------------------------------
@@ -332,8 +355,9 @@ Definition line_effect (sec : str) (d : dict) (errs : Z) (ls : line_status) : st
   match ls with
   | LEmpty | LComment => (sec, d, errs)
   | LError => (sec, d, errs + 1)
-  | LSection o => let s := match o with Some x => x | None => strlwc (strstrip sec) end in (s, dict_set d s None, 0)
-  | LValue k v => (sec, dict_set d (firstn LINESZ (sec ++ cCOLON :: k)) (Some v), 0)
+  | LSection o => let s := match o with Some x => x | None => strlwc (strstrip sec) end in
+                  (s, dict_put d s None, if dict_mem d s then errs else 0)
+  | LValue k v => (sec, dict_put d (firstn LINESZ (sec ++ cCOLON :: k)) (Some v), 0)
   end.
 
 Lemma ini_line_nil : ini_line [] = LEmpty.
@@ -363,7 +387,9 @@ Proof.
     { apply (f_equal (@rev Z)) in Er. rewrite rev_involutive in Er. exact Er. }
     rewrite E, ini_line_nil. reflexivity.
   - cbn [head_ok] in H4. apply negb_true_iff in H4. rewrite H4.
-    destruct (ini_line (rstrip l)) as [| | |o|k v]; reflexivity.
+    destruct (ini_line (rstrip l)) as [| | |o|k v]; try reflexivity.
+    cbn [line_effect]. unfold dict_put.
+    destruct (dict_mem d (match o with Some x => x | None => strlwc (strstrip sec) end)); reflexivity.
 Qed.
 
 Definition flat (ls : list str) : list Z := concat (map (fun l => l ++ [cNL]) ls).
@@ -482,7 +508,8 @@ Proof.
     + change (ini_line (rstrip s_title)) with LComment. cbn [line_effect doc_assigns]. apply IH. exact Hdoc.
     + apply andb_true_iff in Hx. destruct Hx as [Hp Hl]. apply Nat.leb_le in Hl.
       rewrite ini_line_section by (assumption || unfold LINESZ in *; lia).
-      cbn [line_effect doc_assigns]. unfold set_all. cbn [fold_left fst snd]. apply IH. exact Hdoc.
+      cbn [line_effect doc_assigns]. unfold set_all. cbn [fold_left fst snd].
+      destruct (dict_mem d (map to_lower p)); apply IH; exact Hdoc.
     + apply andb_true_iff in Hx. destruct Hx as [Hx Hl]. apply andb_true_iff in Hx. destruct Hx as [Hk Hv].
       apply Nat.leb_le in Hl.
       rewrite ini_line_entry by (assumption || unfold LINESZ in *; lia).
